@@ -66,7 +66,8 @@ struct TETL_TRIVIAL_ABI inplace_vector {
     constexpr inplace_vector(inplace_vector&& other) noexcept(etl::is_nothrow_move_constructible_v<T>)
     {
         etl::uninitialized_move(other.begin(), other.end(), begin());
-        _size = etl::exchange(other._size, internal_size_t{}); // NOLINT(cppcoreguidelines-prefer-member-initializer)
+        _size = other._size; // NOLINT(cppcoreguidelines-prefer-member-initializer)
+        other.clear();
     }
 
     ~inplace_vector()
